@@ -1,5 +1,6 @@
 open Model
 let () = Driver.main [
   { Driver.name = "tp"; run = tp_run; judge = tp_judge };
+  { Driver.name = "sess"; run = sess_run; judge = sess_judge };
   { Driver.name = "tp_class"; run = tp_class_run; judge = tp_class_judge };
 ]
